@@ -238,8 +238,44 @@ def drains(fn, cont):
     return False
 
 
+def _is_fresh_copy(e, name: str) -> bool:
+    """`e` is a copy of the tensor `name` with its own storage: name.clone(), torch.clone(name), possibly with detach() on either side."""
+    while isinstance(e, ast.Call) and isinstance(e.func, ast.Attribute) and e.func.attr == "detach" and not e.args:
+        e = e.func.value
+    if isinstance(e, ast.Call) and isinstance(e.func, ast.Attribute) and e.func.attr == "clone" and not e.args:
+        inner = e.func.value
+    elif isinstance(e, ast.Call) and U(e.func) == "torch.clone" and len(e.args) == 1:
+        inner = e.args[0]
+    else:
+        return False
+    while isinstance(inner, ast.Call) and isinstance(inner.func, ast.Attribute) and inner.func.attr == "detach" and not inner.args:
+        inner = inner.func.value
+    return U(inner) == name
+
+
+def activation_entry_owns_scale(repo) -> bool:
+    """True when quantize_activation stores a copy of its `scale` argument on every returning path (the returned tensor then owns its scale);
+    False when some path hands the argument itself to the quantizer (which stores it as it is, C01.R2)."""
+    from ..core import paths_of, positional_params
+    try:
+        _, qa = repo.func("quantize_activation")
+    except Exception:
+        return False
+    sc = positional_params(qa)[2] if len(positional_params(qa)) > 2 else None
+    if sc is None:
+        return False
+    rets = [p.end[1] for p in paths_of(qa) if p.end and p.end[0] == "return"]
+    if not rets:
+        return False
+    for e in rets:
+        if not (isinstance(e, ast.Call) and U(e.func).endswith("Quantizer.apply") and len(e.args) >= 4 and _is_fresh_copy(e.args[3], sc)):
+            return False
+    return True
+
+
 def buffer_aliasing(chk):
     repo = chk.repo
+    owns = activation_entry_owns_scale(repo)
     mixin = repo.cls("QModuleMixin")
     n = 0
     sites = []
@@ -257,7 +293,7 @@ def buffer_aliasing(chk):
     from ..registries import handlers
     writers = [h.name for h in handlers(repo)["qbytes"] if any(o.split(".")[1].endswith("_") for o in h.ops) and any(isinstance(x, ast.Call) and x.args and U(x.args[0]).endswith("._scale") for x in ast.walk(h.fn))]
     for c, fn, nd, a in sites[:1]:
-        chk.require("C13.R6", f"{c.mod.rel}:{nd.lineno}", not writers, f"{c.name}.{fn.name} hands the buffer `{a}` itself to the tensor it returns ({n} such sites); handlers writing a scale in place: {writers}", f"{c.name}.{fn.name}", "module output aliases a scale buffer",
+        chk.require("C13.R6", f"{c.mod.rel}:{nd.lineno}", owns or not writers, f"{c.name}.{fn.name} hands the buffer `{a}` itself to the tensor it returns ({n} such sites; quantize_activation stores a copy of its scale: {owns}); handlers writing a scale in place: {writers}", f"{c.name}.{fn.name}", "module output aliases a scale buffer",
                     "a model whose forward writes into a module output (h[0] = g[0], or h.copy_(g)) between two quantized modules: outside any Calibration context the first module's output_scale changes (0.0108 -> 0.0514) and its next output is not bit-identical")
     chk.floor("C13.R6", n, 1, "scale buffers handed to quantize_activation")
 
@@ -343,6 +379,9 @@ def saved_scale_mutation(chk, rule="C11.R10"):
                     for a in list(nd.args) + [k.value for k in nd.keywords]:
                         if U(a) in ("self.input_scale", "self.output_scale"):
                             aliased.append(f"{c.name}.{fn.name}: {U(a)}")
+    if activation_entry_owns_scale(repo):
+        # quantize_activation copies its scale: the activation a module computes with does not hold the buffer
+        aliased = []
     writers = buffer_inplace_writers(repo)
     for mi, fn, nd, txt in writers:
         chk.require(rule, f"{mi.rel}:{nd.lineno}", not aliased, f"{fn.name}: `{txt}` writes a scale buffer in place while {len(aliased)} forward site(s) hand the buffer itself to the activation they quantize ({aliased[:2]})",
